@@ -81,6 +81,7 @@ class K:
     def __init__(self, ch, ops, depth, nproc=2, maxproc=4, env=None, nevents=2, stop_at=None, reaction=True, probe_procs=True,
                  falsy_causes=False, liberal_values=False, probe_timeouts=True, duck=False):
         self.duck = duck
+        self.chained = {}         # event index -> index of the event whose outcome it takes over (Event.trigger as a callback)
         self.probe_timeouts = probe_timeouts      # False: timeouts carry no callback of ours (an abandoned one has no callbacks at all)
         self.val = (lambda x: AnyEq(x)) if liberal_values else (lambda x: x)
         self.ch = ch
@@ -258,6 +259,24 @@ class K:
             elif kind == "W":
                 e = op[1]
                 yield from self.wait(pid, self.events[e], ("ev", e), op[2])
+            elif kind == "CH":
+                # chain reaction: event dst takes over the outcome of event src (dst.trigger registered as a callback of src)
+                src, dst = op[1], op[2]
+                evs, evd = self.events[src], self.events[dst]
+                if evs.callbacks is not None and dst not in self.chained and ("ev", dst) not in self.outcome:
+                    self.chained[dst] = src
+                    self.nid += 1
+                    me = ("cb", self.nid)
+                    self.reg[("ev", src)].append(me)
+
+                    def chain(event, me=me, src=src, dst=dst, evd=evd):
+                        self.L("cbk", ("ev", src), me)
+                        self.outcome[("ev", dst)] = self.outcome[("ev", src)]
+                        self.trigger(("ev", dst), self.env.now, NOR)
+                        evd.trigger(event)
+                    evs.callbacks.append(chain)
+            elif kind in ("S", "F", "SX") and op[1] in self.chained:
+                pass          # a chained event is triggered by its source only
             elif kind in ("S", "F", "SX"):
                 e = op[1]
                 lab = ("ev", e)
